@@ -7,7 +7,9 @@ Activation
   Type A: RATS `E0 (FSDI<<4|CID)` -> ATS  TL T0 [TA(1)] [TB(1)] [TC(1)] historical bytes
           T0: b5 TA present, b6 TB present, b7 TC present, b4..b1 FSCI; TB(1) = FWI<<4 | SFGI; absent T0: FSCI 2,
           absent TB(1): FWI 4, SFGI 0
-  Type B: SENSB_RES 50h NFCID0(4) appdata(4) bitrates(1) FSCI<<4|protocol type(1) FWI<<4|ADC|FO(1) [ext]
+  Type B: SENSB_RES 50h NFCID0(4) appdata(4) bitrates(1) FSCI<<4|protocol type(1) FWI<<4|ADC|FO(1) [SFGI<<4|RFU(1)]
+          the 4th protocol info byte is the "extended ATQB" of ISO/IEC 14443-3 7.9.4 (13 byte answer), which a PICC may
+          send when the REQB/WUPB PARAM byte announces extended ATQB support (b5); it does not move FSCI or FWI
           ATTRIB `1D NFCID0 P1 P2(FSDI low nibble) P3 P4(CID)` [higher layer INF] -> MBLI<<4|CID [higher layer response]
 Block protocol (14443-4 section 7.5.4, PICC rules; CID and NAD are not supported -> such blocks are ignored)
   rule C  block number := 1 at activation
@@ -70,10 +72,18 @@ def build_ats(fsci=8, fwi=4, sfgi=0, ta=0x00, tb=True, tc=0x00, hist=b"\x80", t0
     return bytes([len(body) + 1]) + bytes(body)
 
 
+def build_sensb(nfcid0, fsci=8, fwi=4, sfgi=None, appdata=bytes(4), bitrates=0x00, proto=0x01, adc_fo=0x05, rfu=0):
+    """ATQB / SENSB_RES: basic form (12 bytes) or, with sfgi given, the extended form (13 bytes, ISO/IEC 14443-3 7.9.4)"""
+    out = b"\x50" + bytes(nfcid0)[:4] + bytes(appdata)[:4] + bytes([bitrates, fsci << 4 | proto & 15, fwi << 4 | adc_fo & 15])
+    if sfgi is not None:
+        out += bytes([sfgi << 4 | rfu & 15])
+    return out
+
+
 class T4TCard(object):
     def __init__(self, kind="A", fsci=8, fwi=4, sfgi=0, ats=None, ats_opts=None, sensb_res=None, attrib_res=b"\x00",
                  uid=None, apps=("v2",), files=None, access=None, mle=255, mlc=255, eof="6282", select_fci=None,
-                 resp_chunk=None, ext_apdu=True, odo=True, strict_fsc=False, le_less_read="6700"):
+                 resp_chunk=None, ext_apdu=True, odo=True, strict_fsc=False, le_less_read="6700", ext_atqb=False):
         self.kind = kind
         self.brty = "106" + kind
         self.fsci, self.fwi, self.sfgi = fsci, fwi, sfgi
@@ -84,7 +94,7 @@ class T4TCard(object):
         else:
             self.uid = bytes(uid or bytes.fromhex("30702A1C"))
             self.sensb_res = (bytes(sensb_res) if sensb_res is not None else
-                              b"\x50" + self.uid + bytes(4) + bytes([0x00, fsci << 4 | 0x01, fwi << 4 | 0x05]))
+                              build_sensb(self.uid, fsci, fwi, sfgi if ext_atqb else None))
             self.attrib_res = bytes(attrib_res) if attrib_res is not None else None
         self.apps = set(apps)
         self.files = {k: bytearray(v) for k, v in (files or {}).items()}      # persistent memory
@@ -530,6 +540,9 @@ def selftest():
     # SENSB_RES layout of test_init_T4B (FSCI / FWI nibbles at [10] and [11])
     c = T4TCard(kind="B", fsci=8, fwi=8)
     expect("sensb", c.sensb_res[:5] + c.sensb_res[9:], H("5030702A1C") + H("008185"))
+    # extended ATQB: one more protocol info byte behind the basic form, nothing else moves
+    c = T4TCard(kind="B", fsci=2, fwi=8, sfgi=4, ext_atqb=True)
+    expect("sensb-ext", c.sensb_res, H("5030702A1C") + bytes(4) + H("00218540"))
     # test_is_present: R(NAK) block number 0 on a fresh card -> R(ACK) with the card's number 1
     c = T4TCard(kind="A", fsci=5, fwi=8)
     c.responder = lambda apdu: H("0203")
